@@ -1886,6 +1886,18 @@ class RedunBackendDb(RedunBackend):
                 for task in subtree_tasks:
                     session.add(CallSubtreeTask(call_hash=call_hash, task_hash=task.hash))
                 session.commit()
+
+            elif (
+                not session.query(CallSubtreeTask).filter_by(call_hash=call_hash).first()
+            ):
+                # The CallNode exists without its subtree tasks (it was imported from another
+                # repository, or its recording was interrupted). Record them now.
+                subtree_tasks = list(subtree_tasks)
+                for task in subtree_tasks:
+                    self.record_value(task)
+                for task in subtree_tasks:
+                    session.add(CallSubtreeTask(call_hash=call_hash, task_hash=task.hash))
+                session.commit()
         return call_hash
 
     @db_retry
